@@ -74,10 +74,7 @@ Example C12_full_history_ex :
 Proof.
   destruct fx_histories as (Hp & E1 & E2 & A1 & A2).
   split; [exact Hp|]. split; [rewrite E1, E2; discriminate|]. split; [exact A1|]. split; [exact A2|].
-  assert (R1 : snd (conv_full jv_eqb JNull fx_gs fx_ms (run (init true true) fx_h1) ex_LAS true fx_filt) = Ok (fx_go, fx_h, Some fx_e)).
-  { change (run (init true true) fx_h1) with fx_st. rewrite fx_conv. reflexivity. }
-  split; [exact R1|].
-  rewrite <- (C12_full_history jv jv_eqb JNull fx_gs fx_ms true true fx_h1 fx_h2 ex_LAS true fx_filt Hp). exact R1.
+  split; vm_compute; reflexivity.
 Qed.
 
 Example C12_full_fresh_ex :
